@@ -172,7 +172,8 @@ def run(ctx):
         f = ctx.anchor(CORE + "serialization::%s::<C>::deserialize" % nm)
         if f:
             v = FnView.get(P, f)
-            conv = lambda t: (t[0] == "ok" and is_call(t[1], name="try_into") and t[1][2][0] == ("arg", 1))
+            # `bytes.try_into()` is `T::try_from(bytes)` (blanket impl): the checked, exact-length conversion either way
+            conv = lambda t: (t[0] == "ok" and (is_call(t[1], name="try_into") or is_call(t[1], name="try_from")) and t[1][2][0] == ("arg", 1))
             refusal(ctx, f, "SEP", "G48:exact-length-then-decode",
                     [("try_into(bytes)? then deserialize?", succ_fact(lambda t: is_call(t, name="deserialize") and conv(t[2][0])))],
                     ok_sinks(f), require_fail_err=False)
